@@ -17,6 +17,7 @@ import (
 	mrand "math/rand"
 	"strings"
 	"sync"
+	"sync/atomic"
 	"time"
 
 	"filippo.io/age"
@@ -123,6 +124,10 @@ func mkMaterial(typ string, rng *mrand.Rand) *material {
 	}
 	x, _ := age.GenerateX25519Identity()
 	m.rcp["X"] = x.Recipient()
+	// "Y": a stanza of a foreign type without any argument (a header line may consist of a type alone)
+	yb := make([]byte, 20)
+	rng.Read(yb)
+	m.rcp["Y"] = forged{&age.Stanza{Type: "note", Body: yb}}
 	// "T": a stanza of the other SSH key type carrying D's public-key tag (type and tag together address a stanza)
 	h := sha256.Sum256(m.pub["D"].Marshal())
 	tag := base64.RawStdEncoding.EncodeToString(h[:4])
@@ -214,14 +219,33 @@ func realCallInner(id *agessh.EncryptedSSHIdentity, m *material, c *call, prompt
 	return "err_other:" + err.Error()
 }
 
+// the wrong passphrases: one of another length, one of the same length as the right one
+var wrongs = []string{"not the passphrase", "the wrong passphrase"}
+
+var idCounter int64
+
 func newIdentity(m *material, stored string, prompts *int, answer *string) *agessh.EncryptedSSHIdentity {
+	// every second identity value gets a callback that hands out its secret in one reused buffer (as a caller reading
+	// lines into a fixed array does) instead of a fresh slice per call
+	k := atomic.AddInt64(&idCounter, 1)
+	reuse := k%2 == 0
+	var line [64]byte
+	give := func(s string) []byte {
+		if !reuse {
+			return []byte(s)
+		}
+		for i := range line {
+			line[i] = 0
+		}
+		return line[:copy(line[:], s)]
+	}
 	cb := func() ([]byte, error) {
 		*prompts++
 		switch *answer {
 		case "right":
-			return []byte(pass), nil
+			return give(pass), nil
 		case "wrong":
-			return []byte("not the passphrase"), nil
+			return give(wrongs[(int(k/2)+*prompts)%2]), nil
 		}
 		return nil, errors.New("no terminal")
 	}
